@@ -56,14 +56,14 @@ _p("C02", probes_quick=["sort_voting", "tracker_history"],
    assumptions=K,
    not_covered=["maximum-weight one-to-one assignment (SortVoting::winners uses HashMap/HashSet, &mut-capturing closures and an external Hungarian solver)",
                 "the IoU / Mahalanobis numbers themselves (nonlinear f32/f64 kernels are stubs with range contracts)"])
-_p("C03", probes_quick=["tracker_history"], probes_thorough=["sort_history"],
+_p("C03", probes_quick=["tracker_history", "tracker_lifecycle_c03"], probes_thorough=["sort_history"],
    level_text=PROOF_TEXT + "Decides expiry arithmetic (Wasted exactly when last_update + max_idle < scene epoch), epoch advance by one / by n for the addressed scene, what the two shard statistics read, that set_auto_waste resets the counter, that an expired or foreign-scene pair is never compatible, and length +1 per attached detection.",
    level_note="EpochDb / TrackerAPI via verbatim extract under a shim lock (no poisoning; guard hands out the stored value). NOT covered: conservation / handed-out-exactly-once over histories, GC-timing independence, idle_tracks listing (store worker threads); the written-back epoch map (other scenes untouched) is only covered by the bounded replay probe.",
    technique="Verus postconditions on verbatim extracts (EpochDb, TrackerAPI) and in place (update_history); Kani recording-stub harness on compatible()",
    assumptions=K + V,
    not_covered=["conservation of tracks / wasted exactly once over call histories", "independence from the periodic collection", "idle_tracks listing",
                 "frame of the epoch writers (other scenes' epochs untouched): bounded probe only"])
-_p("C04", probes_quick=["tracker_history"],
+_p("C04", probes_quick=["tracker_history", "tracker_lifecycle_c03"],
    level_text=PROOF_TEXT + "Decides the per-call part of scene isolation: tracks of different scenes are never compatible (for all epochs, boxes, options), an update writes exactly the candidate's scene, epoch reads/advances address exactly the given scene.",
    level_note="NOT covered: the two-run non-interference statement (a hyperproperty over histories) and zero columns in the assignment matrix.",
    technique="Kani recording-stub harness on compatible()/apply; Verus postconditions on EpochDb extract",
